@@ -13,8 +13,8 @@ package vsched
 import (
 	"cmp"
 	"fmt"
-	"slices"
 	"runtime"
+	"slices"
 	"sort"
 	"strings"
 	"sync"
@@ -55,21 +55,21 @@ func (k OpKind) String() string {
 
 // Thread is one goroutine known to the scheduler.
 type Thread struct {
-	ID      int
-	Name    string
-	Role    string
-	gate    chan struct{}
-	goid    uint64
-	pending *pendingOp
-	Done    bool
-	harness bool
-	Points  int
-	held    []*LockState // write-held locks, in acquisition order
-	rheld   []*LockState
-	named   bool
-	urgent  bool
+	ID        int
+	Name      string
+	Role      string
+	gate      chan struct{}
+	goid      uint64
+	pending   *pendingOp
+	Done      bool
+	harness   bool
+	Points    int
+	held      []*LockState // write-held locks, in acquisition order
+	rheld     []*LockState
+	named     bool
+	urgent    bool
 	suspended bool
-	sched   *Sched
+	sched     *Sched
 }
 
 type pendingOp struct {
@@ -146,8 +146,10 @@ type Sched struct {
 	OnStep   func(step int, a *Action)
 	// SuspendTimers offers, as a schedule deviation, to postpone a timer callback that has
 	// just started until the next packet delivery has been processed ("slow timer goroutine").
-	SuspendTimers   bool
-	envSinceSuspend int
+	SuspendTimers bool
+	// YieldAfterUnlock makes the release of an exclusive lock a scheduling point as well.
+	YieldAfterUnlock bool
+	envSinceSuspend  int
 	// AtomicsArePoints makes the vatomic shim (if linked) yield at atomics.
 	AtomicsArePoints bool
 }
@@ -769,7 +771,13 @@ func (s *Sched) Unlock(l *LockState) {
 			break
 		}
 	}
+	yield := s.YieldAfterUnlock
 	s.mu.Unlock()
+	if yield {
+		// a preemption right after a critical section (before whatever the thread does next
+		// without a lock, e.g. reading a field it should have copied under the lock)
+		s.Point(OpYield, "after-unlock", nil, nil)
+	}
 }
 
 // RLock acquires l shared (a point).
